@@ -453,10 +453,12 @@ class BindStateBase:
 
         The expected event is defined by the State's sent_cmd, rcvd_msg methods.
         """
-        try:
-            await asyncio.wait_for(self._fut, timeout)
+        try:  # shield: a timeout must not cancel the future (it is given an exception)
+            await asyncio.wait_for(asyncio.shield(self._fut), timeout)
         except TimeoutError:
             self._handle_wait_timer_expired(timeout)
+        except exc.BindingError:
+            pass  # the state's own timer expired first: the context has already failed
         else:
             self._set_context_state(self._next_ctx_state)
         result: Message = self._fut.result()  # may raise exception
@@ -464,6 +466,9 @@ class BindStateBase:
 
     def _handle_wait_timer_expired(self, timeout: float) -> None:
         """Process an overrun of the wait timer when waiting for a Message."""
+
+        if self._fut.done() or self._context.state is not self:
+            return  # the wait has already ended (with a result, or a failure)
 
         msg = (
             f"{self._context}: Failed to transition to {self._next_ctx_state}: "
